@@ -1,4 +1,8 @@
 import Urandom.Lemmas.Index
+import Urandom.Props.C14
+import Urandom.Model.Reservoir
+import Mathlib.Algebra.BigOperators.Intervals
+import Mathlib.Tactic.FieldSimp
 /-
 C06 - index / choose / single pick an existing element, uniformly, None iff empty.
 
@@ -79,6 +83,103 @@ theorem singleExact_spec (items : List Nat) (hs : items.length < 2 ^ 64) (ws ws'
       refine ⟨by simp; intro e; simp [e] at h0, fun x hx => ?_⟩
       injection hx with hx; subst hx
       exact List.getElem_mem hk'
+
+/-! ### `single` when the size is unknown: reservoir sampling -/
+
+open Urandom.Reservoir in
+/-- the result is the previous candidate or one of the remaining items -/
+theorem loop_mem : ∀ (items : List Nat) (denom : Nat) (result : Option Nat) (ws ws' : Words) (r : Option Nat),
+    Reservoir.loop items denom result ws = some (r, ws') → r = result ∨ ∃ x ∈ items, r = some x := by
+  intro items
+  induction items with
+  | nil => intro denom result ws ws' r h; simp [Reservoir.loop] at h; exact Or.inl h.1.symm
+  | cons item rest ih =>
+    intro denom result ws ws' r h
+    simp only [Reservoir.loop] at h
+    split at h
+    · simp at h
+    · rename_i take ws1 _
+      rcases ih _ _ _ _ _ h with e | ⟨x, hx, e⟩
+      · cases take
+        · left; simpa using e
+        · right; exact ⟨item, List.mem_cons_self, by simpa using e⟩
+      · right; exact ⟨x, List.mem_cons_of_mem _ hx, e⟩
+
+/-- once a candidate is held the result is never `None` again -/
+theorem loop_some : ∀ (items : List Nat) (denom : Nat) (x : Nat) (ws ws' : Words) (r : Option Nat),
+    Reservoir.loop items denom (some x) ws = some (r, ws') → r.isSome = true := by
+  intro items
+  induction items with
+  | nil => intro denom x ws ws' r h; simp [Reservoir.loop] at h; rw [← h.1]; rfl
+  | cons item rest ih =>
+    intro denom x ws ws' r h
+    simp only [Reservoir.loop] at h
+    split at h
+    · simp at h
+    · rename_i take ws1 _
+      cases take <;> exact ih _ _ _ _ _ h
+
+/-- the first item is always taken: `chance(1.0 / 1.0)` is certain (C14) -/
+theorem first_item_taken (w₁ w₂ : BitVec 64) (ws : Words) :
+    bernoulli (IEEE.div IEEE.b64 Reservoir.one Reservoir.one) (w₁ :: w₂ :: ws) = some (true, ws) := by
+  have e : IEEE.div IEEE.b64 Reservoir.one Reservoir.one = Reservoir.one := by decide +kernel
+  rw [e, C14.bernoulli_eq]
+  have := C14.certain Reservoir.one (by decide +kernel) w₁ w₂
+  unfold C14.outcome at this
+  rw [this]
+
+/-- **`single` on an iterator of unknown size returns `None` exactly for the empty collection and
+otherwise an element that really is in it** (whenever the word source does not run dry) -/
+theorem single_reservoir_spec (items : List Nat) (ws ws' : Words) (r : Option Nat)
+    (h : Reservoir.single items ws = some (r, ws')) :
+    (r = none ↔ items = []) ∧ (∀ x, r = some x → x ∈ items) := by
+  unfold Reservoir.single at h
+  constructor
+  · cases items with
+    | nil => simp [Reservoir.loop] at h; simp [h.1.symm]
+    | cons item rest =>
+      simp only [Reservoir.loop] at h
+      match ws, h with
+      | [], h => simp [bernoulli, Float01.sample64] at h
+      | [_], h => simp [bernoulli, Float01.sample64] at h
+      | w₁ :: w₂ :: ws1, h =>
+        rw [first_item_taken] at h
+        simp only [↓reduceIte] at h
+        have := loop_some rest _ item ws1 ws' r h
+        constructor
+        · intro e; rw [e] at this; simp at this
+        · intro e; simp at e
+  · intro x hx
+    rcases loop_mem items _ none ws ws' r h with e | ⟨y, hy, e⟩
+    · rw [hx] at e; simp at e
+    · rw [hx] at e; injection e with e; rw [e]; exact hy
+
+/-- **Exact-arithmetic uniformity of the reservoir**: if item `i` (0-based) replaces the candidate
+with probability exactly `1/(i+1)`, every item `j < n` is the final result with probability exactly
+`1/n`: `1/(j+1) · ∏_{i=j+1}^{n-1} (1 − 1/(i+1)) = 1/n`. -/
+theorem reservoir_exact (n j : ℕ) (hj : j < n) :
+    (1 / ((j : ℚ) + 1)) * ∏ i ∈ Finset.Ico (j + 1) n, (1 - 1 / ((i : ℚ) + 1)) = 1 / (n : ℚ) := by
+  induction n with
+  | zero => omega
+  | succ n ih =>
+    by_cases hjn : j = n
+    · subst hjn
+      simp
+    · have hlt : j < n := by omega
+      rw [Finset.prod_Ico_succ_top (by omega), ← mul_assoc, ih hlt]
+      have hn : (n : ℚ) ≠ 0 := by exact_mod_cast (by omega : n ≠ 0)
+      have hn1 : (n : ℚ) + 1 ≠ 0 := by positivity
+      push_cast
+      field_simp
+      ring
+
+/-
+`single_reservoir_fp_partial`: the floating-point perturbation bound `|P − 1/n| ≤ 2^-50` of the
+property is NOT proved.  What is available: `chance(p)` is true with probability `p` to within
+`p·2^-52` relative (C14, `measure_bound`) and `p = fl(1/denom)` is correctly rounded, so each factor of
+the product above is perturbed by a relative `2^-52`-order term; turning that into the stated bound
+for all `n` needs an error-propagation argument over the product that is not formalised here.
+-/
 
 example : choose #[7, 8, 9] [0xFFFFFFFFFFFFFFFF#64] = some (some 9, []) := by decide
 
